@@ -438,11 +438,29 @@ fn part_cli(args: &Args, rep: &Reporter) -> J {
     let accepted = AtomicU64::new(0);
     let files_cmp = AtomicU64::new(0);
     let mut fam_json = serde_json::Map::new();
-    for f in &fams {
+    // a file whose own import lines are rejected (a wildcard and a named import of one path), next to one more import
+    // line anywhere: the faulty file must be the only thing reported
+    let mix_family = Family { layout: 0, name: "cli:n3-wildcard-mix-in-one-file-plus-one-line", n: 3, max_lines: 1, min_lines: 1, spells: vec![0], targets: vec![0, 1], allow_missing: false, fragsets: vec![vec![0, 0, 0], vec![0, 1, 0]] };
+    for f in fams.iter().chain(std::iter::once(&mix_family)) {
         let alpha = line_alphabet(f);
         let a = alpha.len();
         let mut cases: Vec<Case> = vec![];
+        if f.name.contains("wildcard-mix") {
+            for l in &alpha {
+                for fs in &f.fragsets {
+                    for (at_front, importer) in [(true, 1u8), (false, 1), (true, 2)] {
+                        let mix = vec![Line { importer, target: (importer + 1) % 3, spell: 0, targets: 0 }, Line { importer, target: (importer + 1) % 3, spell: 0, targets: 1 }];
+                        let mut lines = if at_front { mix.clone() } else { vec![*l] };
+                        if at_front { lines.push(*l) } else { lines.extend(mix) }
+                        cases.push(Case { n: 3, frags: fs.clone(), lines, layout: 0 });
+                    }
+                }
+            }
+        }
         for len in f.min_lines..=f.max_lines {
+            if f.name.contains("wildcard-mix") {
+                break;
+            }
             for code in 0..a.pow(len as u32) {
                 let mut x = code;
                 let lines: Vec<Line> = (0..len).map(|_| { let l = alpha[x % a]; x /= a; l }).collect();
